@@ -767,6 +767,9 @@ def compare_views(exp, act):
     def fix(e, a):
         if e.get('stereo', 0) is None:
             a['stereo'] = None
+        if ('mname' in e) != ('mname' in a):      # files with V2000 and V3000 records: a member title exists in one form only
+            e.pop('mname', None)
+            a.pop('mname', None)
     if exp.get('kind') == 'rxn' and act.get('kind') == 'rxn':
         for role in 'rpa':
             for e, a in zip(exp[role], act[role]):
@@ -789,6 +792,7 @@ def execute(trace, probes=None, scratch=None):
     return None
 
 
+_OTHER_VERSION = {'sdf': 'esdf', 'esdf': 'sdf', 'rdf': 'erdf', 'erdf': 'rdf'}
 _NO_LAYOUT = {}     # id(molecule) -> molecule: records not born from a file with a real 2D layout (kept alive for the run)
 
 
@@ -862,11 +866,29 @@ def _execute(trace, probes, scratch):
     wp = trace.get('write') or {}
     text, extents, kept, footer, sim_time = reference_write(fmt, records, wp.get('clock', [60]))
     probes['sim_time_s'] += sim_time
+    all_records = records
     records = [records[i] for i in kept]
     if not records:
         return
     expected = [expected_view(r, fmt, bool(trace.get('calc_ct'))) for r in records]
     foreign = trace.get('foreign')
+    if foreign and foreign.get('kind') == 'mixed_versions' and fmt in _OTHER_VERSION:
+        # one file holding V2000 and V3000 records side by side (readers take the version from each counts line)
+        o = _OTHER_VERSION[fmt]
+        text2, ext2, kept2, _, _ = reference_write(o, all_records, wp.get('clock', [60]))
+        if kept2 == kept and len(ext2) == len(extents):
+            pieces, new_ext, pos, mask = [], [], 0, int(foreign.get('mask', 0b1010))
+            for i, (a, b) in enumerate(extents):
+                if (mask >> (i % 12)) & 1:
+                    piece = text2[ext2[i][0]:ext2[i][1]]
+                    expected[i] = expected_view(records[i], o, bool(trace.get('calc_ct')))
+                    probes['mixed_version_records'] += 1
+                else:
+                    piece = text[a:b]
+                pieces.append(piece)
+                new_ext.append((pos, pos + len(piece)))
+                pos += len(piece)
+            text, extents = ''.join(pieces), new_ext
     if foreign:
         foreign = dict(foreign)
         foreign.pop('_dropped', None)
@@ -1377,19 +1399,22 @@ def generate(seed):
     trace['write'] = wp
     mode = cfg['mode']
     if mode in ('clean', 'indexed') and s.random() < (0.6 if mode == 'indexed' else 0.3):
-        k = s.choice((['empty_record'] * 4 if mode == 'indexed' else []) + ['v3000wrap', 'v3000wrap', 'no_final_delimiter', 'crlf', 'empty_record', 'empty_record', 'v2000props', 'v2000props', 'rireg', 'v2000extras', 'v2000extras', 'rxn_unsupported_member', 'rxn_unsupported_member'])
+        k = s.choice((['empty_record'] * 4 if mode == 'indexed' else []) + ['v3000wrap', 'v3000wrap', 'no_final_delimiter', 'crlf', 'empty_record', 'empty_record', 'v2000props', 'v2000props', 'rireg', 'v2000extras', 'v2000extras', 'rxn_unsupported_member', 'rxn_unsupported_member', 'mixed_versions', 'mixed_versions'])
         if fmt == 'mrv':
             k = 'mrv_compact'
         if (k == 'v3000wrap' and fmt in ('esdf', 'erdf')) or (k == 'empty_record' and fmt != 'mrv') or \
                 (k in ('v2000props', 'v2000extras') and fmt in ('sdf', 'rdf')) or (k in ('rireg', 'rxn_unsupported_member') and fmt in ('rdf', 'erdf')) or \
                 (k == 'mrv_compact' and fmt == 'mrv') or \
                 (k == 'no_final_delimiter' and fmt in ('sdf', 'esdf') and mode == 'clean') or \
+                (k == 'mixed_versions' and fmt != 'mrv') or \
                 (k == 'crlf' and fmt != 'mrv'):
             trace['foreign'] = {'kind': k, 'width': s.choice([20, 30, 40, 60, 78]), 'blank_first': s.random() < 0.5,
                                 'no_newline': s.random() < 0.5, 'after': s.randrange(8), 'per_line': s.choice([1, 2, 3, 8, 8])}
             if k == 'v2000extras':
                 trace['foreign']['picks'] = [s.randrange(64) for _ in range(s.choice([0, 1, 1, 2, 3]))]
                 trace['foreign']['header'] = s.randrange(16)
+            if k == 'mixed_versions':
+                trace['foreign']['mask'] = s.randrange(1, 1 << 12)
             if k == 'rxn_unsupported_member':
                 trace['foreign']['member'] = s.randrange(64)
                 trace['foreign']['empty'] = s.random() < 0.4
